@@ -450,6 +450,58 @@ Example C03_end_to_end_unmatched :
   end.
 Proof. vm_compute. split; reflexivity. Qed.
 
+(* ---- the Array slice that selects nothing (fix f20b613; Proofs/C03slice.v) ----
+   a[5:9], a[2:1], a[-9:-7] on a three-element Array, [0:2] on an empty one: the read side gathers ONE NodeCoords
+   whose node is an empty list of the evaluator and whose parent / parentref are the sliced Array and the START
+   of the slice.  Before the fix _apply_change handed these to _update_node: `parent[start]` raised a bare
+   IndexError past the end (yaml-set ended in a traceback) and, with the start within range, the element there -
+   which the slice does NOT select - was replaced (a violation of the frame: a node the path did not match
+   changed).  Now Processor._is_empty_slice recognises it (Compose.ce_coord: the coordinate CList []) and it
+   contributes no change; both routes of set_value complete with the document they started with. *)
+From YP Require Import C03slice.
+
+Theorem C03_empty_slice_coordinate :
+  forall nk i els z path anc, is_copy (NSeq i els) = false ->
+    ce_coord nk (RCoords (RList []) (Some (RNode (NSeq i els))) (Some (PInt z)) path anc)
+    = Some (CList [] (mkpc (Some (oid i)) (PInt z)) nk).
+Proof. exact empty_slice_coord. Qed.
+Print Assumptions C03_empty_slice_coordinate.
+
+(* among any other gathered coordinates it adds no change ... *)
+Theorem C03_empty_slice_changes_nothing :
+  forall lit fl cs1 cs2 pc nk value fmt vo st,
+    set_value lit fl (cs1 ++ CList [] pc nk :: cs2) value fmt vo st = set_value lit fl (cs1 ++ cs2) value fmt vo st.
+Proof. exact set_empty_slice_skipped. Qed.
+Print Assumptions C03_empty_slice_changes_nothing.
+
+(* ... and a call whose gather is such slices only (either route, any value and format) completes, document unchanged *)
+Theorem C03_empty_slice_end_to_end :
+  forall lit re_search nstr vstr kw_handler creator fl mustexist p d value fmt vo items,
+    ce_gather lit re_search nstr vstr kw_handler creator mustexist p d = (items, Done) ->
+    forallb empty_slice_itemb items = true ->
+    ce_set lit re_search nstr vstr kw_handler creator fl mustexist p d value fmt vo
+    = CeDone (snd (sv_start vo (init_state d))).
+Proof. exact set_empty_slices_e2e. Qed.
+Print Assumptions C03_empty_slice_end_to_end.
+
+(* non-vacuity and the repaired behaviour on doc_e3 (l = [*a, 1, 1]): l[5:9] (was: IndexError), l[2:1] (was: l[2]
+   replaced), l[-9:-7]; the hypotheses of C03_empty_slice_end_to_end hold for them; a real empty sequence is
+   still an ordinary node *)
+Definition e3_slice_check (text : string) (must : bool) : Prop :=
+  match prepare 20 text with
+  | Ok p =>
+      let g := ce_gather no_lit e3_re e3_nstr e3_vstr e3_kw e3_cr must p doc_e3 in
+      snd g = Done /\ List.length (fst g) = 1 /\ forallb empty_slice_itemb (fst g) = true /\
+      ce_set no_lit e3_re e3_nstr e3_vstr e3_kw e3_cr no_fl must p doc_e3 (PStr "new") FBare None
+      = CeDone (snd (sv_start None (init_state doc_e3)))
+  | _ => False
+  end.
+Example C03_empty_slice_repaired :
+  e3_slice_check "l[5:9]" true /\ e3_slice_check "l[5:9]" false /\ e3_slice_check "l[2:1]" true /\
+  e3_slice_check "l[2:1]" false /\ e3_slice_check "l[-9:-7]" true /\
+  fst (snd (sv_start None (init_state doc_e3))) = doc_e3.
+Proof. vm_compute. repeat split. Qed.
+
 (* ======================================================================== *)
 (* HISTORIES given as PATHS (Model/Compose.v [ce_hop] / [ce_run_ops]; Proofs/EvalHistory.v): a step is
    set_value(path, value, mustexist) / set_value on a missing straight path / delete_nodes(path), and every
